@@ -2,7 +2,7 @@
     transcriptions (used by tools/checks/c03.py through vm_compute). *)
 From Coq Require Import ZArith List Bool.
 Import ListNotations.
-From VIsa Require Import IsaState ExecImpl ExecSpec.
+From VIsa Require Import IsaState ExecImpl ExecSpec ExecImplV ExecSpecV.
 Open Scope Z_scope.
 
 (** partial state as the harness records it: scalars + the probed registers *)
@@ -33,7 +33,12 @@ Definition agrees (st : state) (p : pstate) : bool :=
   forallb (fun kv => sgpr st (fst kv) =? snd kv) (p_s p) &&
   forallb (fun kv => vgpr st (fst (fst kv)) (snd (fst kv)) =? snd kv) (p_v p).
 
-Definition exec_impl (a : arch) (st : state) (i : inst) : option state := exec_scalar a st i.
+Definition is_vector (f : format) : bool :=
+  match f with F_VOP2 | F_VOP1 | F_VOPC | F_VOP3A | F_VOP3B => true | _ => false end.
+Definition exec_impl (a : arch) (st : state) (i : inst) : option state :=
+  if is_vector (i_fmt i) then exec_vector a st i else exec_scalar a st i.
+Definition exec_spec_all (a : arch) (st : state) (i : inst) : option state :=
+  if is_vector (i_fmt i) then exec_spec_v a st i else exec_spec a st i.
 
 (** 0 = the Go run is exactly what the transcription of the Go code computes *)
 Definition check_impl (c : case) : Z :=
@@ -45,7 +50,7 @@ Definition check_impl (c : case) : Z :=
 (** 0 = the Go run is what the manual prescribes; 2 = it is not; 4 = the
     manual transcription does not define this instruction/operand combination *)
 Definition check_spec (c : case) : Z :=
-  match exec_spec (c_arch c) (to_state (c_pre c)) (c_inst c) with
+  match exec_spec_all (c_arch c) (to_state (c_pre c)) (c_inst c) with
   | None => 4
   | Some st' => if negb (c_crash c) && negb (c_eff c) && agrees st' (c_post c) then 0 else 2
   end.
